@@ -1,6 +1,6 @@
 (* C07 — proofs about Model/Tags.v *)
 From PG Require Import Lib.Strs Model.Tags.
-From Coq Require Import Lia.
+From Coq Require Import Lia Permutation.
 
 (* ====================================================================================== *)
 (* Generic theorems: for ALL name-sanitisation functions (Section variables)               *)
@@ -549,6 +549,294 @@ Section Generic.
     - apply names_unique_full; assumption.
     - apply clients_mirror.
   Qed.
+  (* ---------------------------------------------------------------- groups -> files -> APIClient properties *)
+  Definition add_key (ks : list str) (k : str) : list str := if mem_str k ks then ks else ks ++ [k].
+
+  Lemma amem_mem : forall {V} (d : list (str * V)) k, amem k d = mem_str k (map fst d).
+  Proof. induction d as [|[k' v] d IH]; intro k; simpl; [reflexivity | rewrite IH; reflexivity]. Qed.
+
+  Lemma aappend_fst_keys : forall {V} (d : list (str * list V)) k (v : V),
+    map fst (aappend d k v) = add_key (map fst d) k.
+  Proof.
+    unfold add_key. induction d as [|[k' g] d IH]; intros k v; simpl; [reflexivity|].
+    destruct (str_eqb k k') eqn:E; simpl; [reflexivity|]. rewrite IH.
+    destruct (mem_str k (map fst d)); reflexivity.
+  Qed.
+
+  Lemma add_key_in : forall ks k x, In x ks -> In x (add_key ks k).
+  Proof. intros ks k x H. unfold add_key. destruct (mem_str k ks); [exact H | apply in_or_app; left; exact H]. Qed.
+  Lemma add_key_self : forall ks k, In k (add_key ks k).
+  Proof.
+    intros ks k. unfold add_key. destruct (mem_str k ks) eqn:E; [apply mem_str_In, E | apply in_or_app; right; left; reflexivity].
+  Qed.
+  Lemma add_key_noop : forall ks k, In k ks -> add_key ks k = ks.
+  Proof. intros ks k H. unfold add_key. apply mem_str_In in H. rewrite H. reflexivity. Qed.
+
+  (* dropping the repeated spellings of a key does not change which keys get created, nor their order *)
+  Lemma fold_add_key_dedup : forall ts seen ks,
+    (forall x, In x seen -> In x ks) ->
+    fold_left add_key (map tag_key (dedup_keys_go tag_key seen ts)) ks = fold_left add_key (map tag_key ts) ks.
+  Proof.
+    induction ts as [|t ts IH]; intros seen ks H; simpl; [reflexivity|].
+    destruct (mem_str (tag_key t) seen) eqn:E.
+    - apply mem_str_In in E. rewrite (add_key_noop ks _ (H _ E)). apply IH, H.
+    - simpl. apply IH. intros x [<-|Hx]; [apply add_key_self | apply add_key_in, H, Hx].
+  Qed.
+
+  Lemma fold_aappend_keys : forall {V} (f : str -> V) ts (d : list (str * list V)),
+    map fst (fold_left (fun d t => aappend d (tag_key t) (f t)) ts d) = fold_left add_key (map tag_key ts) (map fst d).
+  Proof.
+    induction ts as [|t ts IH]; intro d; simpl; [reflexivity|]. rewrite IH, aappend_fst_keys. reflexivity.
+  Qed.
+
+  Lemma group_cand_keys_gen : forall l (d1 : list (str * list op)) (d2 : list (str * list str)),
+    map fst d1 = map fst d2 ->
+    map fst (fold_left group_step l d1) = map fst (fold_left (cand_step tag_key) l d2).
+  Proof.
+    induction l as [|o l IH]; intros d1 d2 H; simpl; [exact H|]. apply IH.
+    unfold Tags.group_step, cand_step.
+    rewrite (fold_aappend_keys (fun _ => o)), (fold_aappend_keys (fun t => t)), H.
+    unfold Tags.group_tags. apply fold_add_key_dedup. intros x [].
+  Qed.
+
+  (* the group table and the candidate table have the same keys in the same order *)
+  Lemma group_cand_keys : forall l, map fst (group l) = map fst (candidates l).
+  Proof. intro l. apply group_cand_keys_gen. reflexivity. Qed.
+
+  Lemma emitter_tags_keys : forall l, map fst (emitter_tags l) = map fst (group l).
+  Proof. intro l. unfold Tags.emitter_tags. rewrite map_map. simpl. symmetry. apply group_cand_keys. Qed.
+
+  Lemma canonical_of_keys : forall (m : list (str * str)), NoDup (map fst m) ->
+    map (canonical_of m) (map fst m) = map snd m.
+  Proof.
+    intros m H. rewrite map_map. apply map_ext_in. intros [k c] Hin. simpl.
+    unfold canonical_of. rewrite (alookup_in m k c H Hin). reflexivity.
+  Qed.
+
+  (* a dict built from pairs with pairwise distinct keys is the list itself: nothing is overwritten *)
+  Lemma aset_fresh : forall {V} (d : list (str * V)) k v, ~ In k (map fst d) -> aset d k v = d ++ [(k, v)].
+  Proof.
+    induction d as [|[k' v'] d IH]; intros k v H; simpl; [reflexivity|].
+    destruct (str_eqb k k') eqn:E.
+    - apply str_eqb_eq in E. exfalso. apply H. left. symmetry. exact E.
+    - rewrite IH; [reflexivity|]. intro Hin. apply H. right. exact Hin.
+  Qed.
+  Lemma aupdate_nodup : forall {V} (l d : list (str * V)), NoDup (map fst (d ++ l)) -> aupdate d l = d ++ l.
+  Proof.
+    unfold aupdate. induction l as [|[k v] l IH]; intros d H; simpl; [rewrite app_nil_r; reflexivity|].
+    rewrite aset_fresh.
+    - rewrite IH; rewrite <- app_assoc; [reflexivity | exact H].
+    - rewrite map_app in H. apply NoDup_remove_2 in H. intro Hin. apply H. apply in_or_app. left. exact Hin.
+  Qed.
+  Lemma dict_of_nodup : forall {V} (l : list (str * V)), NoDup (map fst l) -> dict_of l = l.
+  Proof. intros V l H. unfold dict_of. apply (aupdate_nodup l []). exact H. Qed.
+
+  (* sorted(tag_map) is a permutation *)
+  Lemma ins_sorted_perm : forall {V} (x : str * V) l, Permutation (ins_sorted x l) (x :: l).
+  Proof.
+    induction l as [|y l IH]; simpl; [apply Permutation_refl|].
+    destruct (str_leb (fst x) (fst y)); [apply Permutation_refl|].
+    apply perm_trans with (y :: x :: l); [apply perm_skip, IH | apply perm_swap].
+  Qed.
+  Lemma sort_by_key_perm : forall {V} (l : list (str * V)), Permutation (sort_by_key l) l.
+  Proof.
+    induction l as [|x l IH]; simpl; [apply Permutation_refl|].
+    apply perm_trans with (x :: sort_by_key l); [apply ins_sorted_perm | apply perm_skip, IH].
+  Qed.
+
+  Notation mods m := (map (fun kc : str * str => tag_attr (snd kc)) m).
+  (* the guard: the module names of the canonical tags are pairwise distinct (negation of F07e on this
+     document) and are Python identifiers (negation of the fixed F07d) *)
+  Definition modules_ok (e : list op) : bool :=
+    nodupb (mods (emitter_tags e)) && forallb py_ident (mods (emitter_tags e)).
+
+  Definition file_of (e : list op) (kg : str * list op) : str * (str * list str) :=
+    let c := canonical_of (emitter_tags e) (fst kg) in
+    (tag_attr c, (class_of tag_class c, map (fun o => method_name (o_id o)) (snd kg))).
+  Definition prop_of (kc : str * str) : str * str := (tag_attr (snd kc), class_of tag_class (snd kc)).
+
+  Lemma emitter_tags_nodup : forall e, NoDup (map fst (emitter_tags e)).
+  Proof. intro e. rewrite emitter_tags_keys. apply group_keys_nodup. Qed.
+
+  Lemma file_keys : forall e, map fst (map (file_of e) (group e)) = mods (emitter_tags e).
+  Proof.
+    intro e. rewrite map_map. unfold file_of. simpl.
+    rewrite <- (map_map (fun kg => canonical_of (emitter_tags e) (fst kg)) tag_attr).
+    rewrite <- (map_map fst (canonical_of (emitter_tags e))), <- emitter_tags_keys.
+    rewrite (canonical_of_keys _ (emitter_tags_nodup e)), map_map. reflexivity.
+  Qed.
+
+  Definition files_of (l : list op) := files method_name tag_key tag_attr tag_class score l.
+  Definition props_of (l : list op) := props method_name tag_key tag_attr tag_class score py_ident l.
+
+  (* every group is written to its own file: nothing overwrites anything *)
+  Theorem files_exact : forall l, let e := emitted_ops l in
+    modules_ok e = true ->
+    files_of l = map (file_of e) (group e) /\ NoDup (map fst (files_of l)).
+  Proof.
+    intros l e H. unfold modules_ok in H. apply andb_true_iff in H. destruct H as [H _].
+    apply nodupb_NoDup in H.
+    assert (E : files_of l = dict_of (map (file_of e) (group e))) by reflexivity.
+    rewrite E, dict_of_nodup; rewrite file_keys; [split; [reflexivity | exact H] | exact H].
+  Qed.
+
+  Lemma files_lookup : forall l k g, let e := emitted_ops l in
+    modules_ok e = true -> In (k, g) (group e) ->
+    alookup (tag_attr (canonical_of (emitter_tags e) k)) (files_of l)
+    = Some (class_of tag_class (canonical_of (emitter_tags e) k), map (fun o => method_name (o_id o)) g).
+  Proof.
+    intros l k g e H Hin. destruct (files_exact l H) as [E N]. fold e in E.
+    apply alookup_in; [exact N|]. rewrite E.
+    change (tag_attr (canonical_of (emitter_tags e) k), (class_of tag_class (canonical_of (emitter_tags e) k), map (fun o => method_name (o_id o)) g))
+      with (file_of e (k, g)).
+    apply in_map, Hin.
+  Qed.
+
+  Lemma in_emitter_tags_group : forall e k c, In (k, c) (emitter_tags e) ->
+    c = canonical_of (emitter_tags e) k /\ exists g, In (k, g) (group e).
+  Proof.
+    intros e k c Hin. split.
+    - unfold canonical_of. rewrite (alookup_in _ k c (emitter_tags_nodup e) Hin). reflexivity.
+    - assert (K : In k (map fst (group e))).
+      { rewrite <- emitter_tags_keys. change k with (fst (k, c)). apply in_map, Hin. }
+      apply in_map_iff in K. destruct K as [[k' g] [E K]]. simpl in E. subst k'. exists g. exact K.
+  Qed.
+
+  (* THE reachability theorem: under the guard, client.py is importable, its tag properties are — up to
+     the sort order — exactly one (module, class) per group, property names are pairwise distinct, and
+     each group's property names the module whose file holds exactly that group's methods *)
+  Theorem reachable : forall l, let e := emitted_ops l in
+    modules_ok e = true ->
+    exists t,
+      props_of l = Some t
+      /\ Permutation t (map prop_of (emitter_tags e))
+      /\ NoDup (map fst t)
+      /\ forall k g, In (k, g) (group e) ->
+           let c := canonical_of (emitter_tags e) k in
+           In (tag_attr c, class_of tag_class c) t
+           /\ alookup (tag_attr c) (files_of l) = Some (class_of tag_class c, map (fun o => method_name (o_id o)) g).
+  Proof.
+    intros l e H. pose proof H as H0. unfold modules_ok in H0. apply andb_true_iff in H0. destruct H0 as [Hn Hi].
+    apply nodupb_NoDup in Hn.
+    set (m := emitter_tags e) in *.
+    set (t := map prop_of (sort_by_key m)).
+    assert (P : Permutation t (map prop_of m)) by (apply Permutation_map, sort_by_key_perm).
+    assert (Nt : NoDup (map fst t)).
+    { apply (Permutation_NoDup (l := map fst (map prop_of m))); [apply Permutation_map, Permutation_sym, P|].
+      rewrite map_map. exact Hn. }
+    exists t. split; [|split; [exact P | split; [exact Nt|]]].
+    - unfold props_of, props. fold e. rewrite (clients_mirror e). fold m.
+      change (map (fun kc : str * str => (tag_attr (snd kc), class_of tag_class (snd kc))) (sort_by_key m)) with t.
+      assert (C1 : forallb (fun nc : str * str => py_ident (fst nc)) t = true).
+      { apply forallb_forall. intros nc Hin. apply (Permutation_in _ P) in Hin.
+        apply in_map_iff in Hin. destruct Hin as [kc [<- Hk]]. simpl.
+        rewrite forallb_forall in Hi. apply Hi. apply (in_map (fun kc => tag_attr (snd kc))), Hk. }
+      assert (C2 : forallb (fun nc : str * str =>
+                     match alookup (fst nc) (files method_name tag_key tag_attr tag_class score l) with
+                     | Some (c, _) => str_eqb c (snd nc) | None => false end) t = true).
+      { apply forallb_forall. intros nc Hin. apply (Permutation_in _ P) in Hin.
+        apply in_map_iff in Hin. destruct Hin as [[k c] [<- Hk]]. simpl.
+        destruct (in_emitter_tags_group e k c Hk) as [Ec [g Hg]].
+        pose proof (files_lookup l k g H Hg) as L. fold e in L. fold m in L, Ec. rewrite <- Ec in L.
+        unfold files_of in L. rewrite L. apply str_eqb_refl. }
+      rewrite C1, C2. simpl. rewrite (dict_of_nodup t Nt). reflexivity.
+    - intros k g Hin c. split; [|apply (files_lookup l k g H Hin)].
+      apply (Permutation_in _ (Permutation_sym P)).
+      assert (K : In k (map fst m)) by (unfold m; rewrite emitter_tags_keys; change k with (fst (k, g)); apply in_map, Hin).
+      apply in_map_iff in K. destruct K as [[k' c'] [E K]]. simpl in E. subst k'.
+      destruct (in_emitter_tags_group e k c' K) as [Ec _]. fold m in Ec.
+      change (tag_attr c, class_of tag_class c) with (prop_of (k, c)). unfold c. rewrite <- Ec.
+      apply in_map, K.
+  Qed.
+
+  (* ---------------------------------------------------------------- F07e's guard implies the module guard *)
+  Definition cand_ok (T : list str) (d : list (str * list str)) : Prop :=
+    Forall (fun kc => Forall (fun t => tag_key t = fst kc /\ In t T) (snd kc)) d.
+
+  Lemma aappend_cand_ok : forall T d t, cand_ok T d -> In t T -> cand_ok T (aappend d (tag_key t) t).
+  Proof.
+    unfold cand_ok. induction d as [|[k c] d IH]; intros t H Ht; simpl.
+    - constructor; [|constructor]. simpl. constructor; [split; [reflexivity | exact Ht] | constructor].
+    - inversion H as [|? ? Hh Hr]; subst. destruct (str_eqb (tag_key t) k) eqn:E.
+      + apply str_eqb_eq in E. constructor; [|exact Hr]. simpl in *. apply Forall_app. split; [exact Hh|].
+        constructor; [split; [exact E | exact Ht] | constructor].
+      + constructor; [exact Hh | apply IH; assumption].
+  Qed.
+
+  Lemma candidates_ok : forall l, cand_ok (all_tags l) (candidates l).
+  Proof.
+    intro l. unfold Tags.candidates.
+    assert (G : forall l' d, (forall o t, In o l' -> In t (tags_or_default o) -> In t (all_tags l)) ->
+                cand_ok (all_tags l) d -> cand_ok (all_tags l) (fold_left (cand_step tag_key) l' d)).
+    { induction l' as [|o l' IH]; intros d H Hd; simpl; [exact Hd|]. apply IH.
+      - intros o' t Ho. apply H. right. exact Ho.
+      - unfold cand_step.
+        assert (Q : forall ts d, (forall t, In t ts -> In t (all_tags l)) -> cand_ok (all_tags l) d ->
+                    cand_ok (all_tags l) (fold_left (fun d t => aappend d (tag_key t) t) ts d)).
+        { induction ts as [|t ts IHt]; intros d0 Hts Hd0; simpl; [exact Hd0|].
+          apply IHt; [intros t' Ht'; apply Hts; right; exact Ht'|].
+          apply aappend_cand_ok; [exact Hd0 | apply Hts; left; reflexivity]. }
+        apply Q; [|exact Hd]. intros t Ht. apply (H o t); [left; reflexivity | exact Ht]. }
+    apply G; [|constructor].
+    intros o t Ho Ht. unfold all_tags. apply in_flat_map. exists o. split; assumption.
+  Qed.
+
+  Lemma max_by_in : forall r x, In (max_by score x r) (x :: r).
+  Proof.
+    induction r as [|y r IH]; intro x; simpl; [left; reflexivity|].
+    destruct (score_gtb score y x).
+    - destruct (IH y) as [H|H]; [right; left; exact H | right; right; exact H].
+    - destruct (IH x) as [H|H]; [left; exact H | right; right; exact H].
+  Qed.
+
+  Lemma canon_ok : forall l k c, In (k, c) (emitter_tags l) -> tag_key c = k /\ In c (all_tags l).
+  Proof.
+    intros l k c Hin. unfold Tags.emitter_tags in Hin. apply in_map_iff in Hin.
+    destruct Hin as [[k' cs] [E Hin]]. simpl in E. inversion E; subst k' c. clear E.
+    pose proof (candidates_ok l) as OK. pose proof (candidates_nonempty l) as NE.
+    unfold cand_ok in OK. rewrite Forall_forall in OK. specialize (OK _ Hin). simpl in OK.
+    unfold nonempty_lists in NE. rewrite Forall_forall in NE. specialize (NE _ Hin). simpl in NE.
+    destruct cs as [|x r]; [contradiction NE; reflexivity|]. simpl.
+    rewrite Forall_forall in OK. apply OK. apply max_by_in.
+  Qed.
+
+  Lemma NoDup_map_inj_on : forall {A B} (f : A -> B) l,
+    NoDup l -> (forall x y, In x l -> In y l -> f x = f y -> x = y) -> NoDup (map f l).
+  Proof.
+    induction l as [|a l IH]; intros Hn Hi; simpl; [constructor|].
+    inversion Hn as [|? ? Hna Hn']; subst. constructor.
+    - intro Hin. apply in_map_iff in Hin. destruct Hin as [b [E Hb]].
+      apply Hna. rewrite (Hi a b (or_introl eq_refl) (or_intror Hb) (eq_sym E)). exact Hb.
+    - apply IH; [exact Hn'|]. intros x y Hx Hy. apply Hi; right; assumption.
+  Qed.
+
+  (* the check's F07e guard (pairwise over ALL tag spellings of the document) implies that the module
+     names actually used — those of the canonical tags — are pairwise distinct *)
+  Theorem guard_F07e_modules : forall l, guard_F07e tag_key tag_attr tag_class l = true ->
+    nodupb (map (fun kc : str * str => tag_attr (snd kc)) (emitter_tags l)) = true.
+  Proof.
+    intros l H. apply nodupb_NoDup. apply NoDup_map_inj_on.
+    - apply (NoDup_map_inv fst), emitter_tags_nodup.
+    - intros [k1 c1] [k2 c2] H1 H2 E. simpl in E.
+      destruct (canon_ok l k1 c1 H1) as [K1 T1]. destruct (canon_ok l k2 c2 H2) as [K2 T2].
+      unfold guard_F07e in H. rewrite forallb_forall in H. specialize (H c1 T1).
+      rewrite forallb_forall in H. specialize (H c2 T2).
+      apply orb_true_iff in H. destruct H as [H|H].
+      + apply str_eqb_eq in H. rewrite K1, K2 in H. subst k2.
+        apply (NoDup_map_inj_in fst (emitter_tags l)); [apply emitter_tags_nodup | exact H1 | exact H2 | reflexivity].
+      + apply andb_true_iff in H. destruct H as [H _]. apply negb_true_iff in H.
+        rewrite E, str_eqb_refl in H. discriminate.
+  Qed.
+
+  Theorem guards_modules_ok : forall l,
+    guard_F07e tag_key tag_attr tag_class l = true -> guard_F07d tag_attr py_ident l = true ->
+    modules_ok l = true.
+  Proof.
+    intros l He Hd. unfold modules_ok. rewrite (guard_F07e_modules l He). simpl.
+    apply forallb_forall. intros x Hx. apply in_map_iff in Hx. destruct Hx as [[k c] [<- Hin]]. simpl.
+    destruct (canon_ok l k c Hin) as [_ T]. unfold guard_F07d in Hd. rewrite forallb_forall in Hd. apply Hd, T.
+  Qed.
+
 End Generic.
 
 (* ====================================================================================== *)
